@@ -33,17 +33,19 @@ THEOREM_NOTES = ("see coq/Props/C02.v (16 theorems): [G] row 0 of A2.3 is A2.2; 
                  "tangents; unit vector has norm 1.  [B] A4.4 Leibniz identity for all k, l <= 3; A2.3 rows = Eq. 2.9 recursion for degree <= 5 and rows "
                  "sum to zero for degree <= 6 on a symbolic knot window (all multiplicity patterns); A3.4 = A3.2 for degree <= 3 and A3.8 (repaired) = "
                  "A3.6 on the triangle k+l <= order for bi-degree <= (2,2), every order 0..p+2 (includes order > degree)")
-LEVEL_TEXT = ("proof, partial only for surfaces / rational values.  GENERAL (all degrees, knot vectors, multiplicities, orders): the Eq. 2.9 "
-              "recursion dN is order by order the TRUE analytic (epsilon-delta, derivable_pt_lim) derivative of the Cox-de Boor functions inside every "
-              "non-empty span and the right derivative at knots (Proofs/DerivAnalytic.v); A2.3 (basis_function_ders) = dN for EVERY degree (ndu table "
-              "spec, Eq. 2.10, ders_for_r invariant: Proofs/DersGeneral*.v), A2.5 = dN, A2.3 = A2.5; hence the derivative vectors of the default curve "
-              "evaluator A3.2 are the true k-th derivatives of the curve of C01 for every degree and every order (zero above the degree), right "
-              "derivatives on the half-open span incl. its left knot, left derivatives at the closed domain end; order-0 entry = evaluated point; the "
-              "rational quotient rule A4.2 satisfies sum_i C(k,i) w^(i) C^(k-i) = A^(k) for every order; hodograph control points; normal orthogonal "
-              "to both tangents, unit length over R.  BOUNDED: A4.4 only for k, l <= 3; the two evaluator families agree for degree <= 3 (curves) / "
-              "bi-degree <= (2,2) (surfaces).  ONLY TIED BY CORRESPONDENCE against the exact piecewise-polynomial Fraction oracle: surface derivative "
-              "values, rational derivative values beyond the quotient identity, the alternative evaluators beyond the bounds, the hodograph objects "
-              "and tangent/normal values")
+LEVEL_TEXT = ("proof.  GENERAL (all degrees, knot vectors, multiplicities, orders incl. orders above the degree): the Eq. 2.9 recursion dN is order by "
+              "order the TRUE analytic (epsilon-delta, derivable_pt_lim) derivative of the Cox-de Boor functions inside every non-empty span and the "
+              "right derivative at knots; A2.3 (basis_function_ders) = dN for every degree (ndu table, Eq. 2.10, ders_for_r invariant), A2.5 = dN, "
+              "A2.3 = A2.5; the derivative vectors of the default evaluators are the true derivatives of the shapes of C01: non-rational curves "
+              "(A3.2), rational curves with positive weights (A4.2; general Leibniz rule + uniqueness of the quotient's derivatives), non-rational "
+              "surfaces (A3.6; every entry SKL[k][l] is the mixed partial, stated as one-variable derivatives with the other parameter fixed), "
+              "rational surfaces (A4.4: Leibniz identity for every order, mixed partials) - two-sided inside spans, right derivatives on the half-open "
+              "span incl. its left knot, left derivatives at the closed domain end for curves; order-0 entry = evaluated point; tangent vectors are the "
+              "derivatives of the evaluated point and the normal is the cross product of the two true partials, orthogonal to both, unit length over R; "
+              "hodograph control-point formula.  BOUNDED: the ALTERNATIVE evaluators (A3.4/A3.8) are proved equal to the default ones only for degree "
+              "<= 3 (curves) / bi-degree <= (2,2) (surfaces).  ONLY TIED BY CORRESPONDENCE against the exact piecewise-polynomial Fraction oracle: the "
+              "alternative evaluators beyond those bounds, the hodograph objects (derivative_curve/derivative_surface as shapes), volumes have no "
+              "derivative API.  Three input classes of the hodograph constructors are recorded known findings (degree-1 shapes, knot of multiplicity = degree)")
 LEVEL_NOTE = ("theorems are about the hand-written Gallina model (Model/Derivs.v, Model/Basis.v), tied to evaluators.py/helpers.py/operations.py "
               "by the sampled correspondence check; the oracle differentiates the exact polynomial pieces (interpolated from exact Cox-de Boor "
               "values) formally and divides power series for rational shapes, independently of every derivative formula of the library")
